@@ -146,7 +146,7 @@ func value(g *lp.Gen, max int) string {
 
 func genResp(g *lp.Gen, tr *track.Tracker, lg *nullLogger) {
 	s := &genState{g: g, tr: tr, lg: lg}
-	s.cfg = caseCfg{v11: !g.Chance(1, 4), head: g.Chance(1, 14), conn: g.Pick("none", "none", "none", "ka", "close"), sf: g.Chance(1, 2), mv: g.Chance(1, 3)}
+	s.cfg = caseCfg{v11: !g.Chance(1, 4), head: g.Chance(1, 14), conn: g.Pick("none", "none", "none", "ka", "close"), sf: g.Chance(1, 2), mv: g.Chance(1, 3), rc: g.Chance(1, 4)}
 	if g.Chance(1, 8) {
 		s.cfg.fail = 1 + g.Intn(4)
 	}
